@@ -1,0 +1,15 @@
+//go:build verif
+
+package search
+
+import "github.com/paulsonkoly/chess-3/transp"
+
+// VerifDigest summarises the state a search leaves behind for later searches:
+// transposition table contents, history stores and the generation counter
+// (build tag verif).
+func (s *Search) VerifDigest() (tt uint64, hist uint64, gen int) {
+	return transp.VerifDigest(s.tt), s.ranker.VerifDigest(), int(s.gen)
+}
+
+// VerifTT exposes the transposition table of s.
+func (s *Search) VerifTT() *transp.Table { return s.tt }
